@@ -86,7 +86,9 @@ type hold struct {
 	seen      int
 	reached   chan struct{}
 	release   chan struct{}
+	abandoned chan struct{} // a handler of this operation ID returned: the point may never be reached
 	done      bool
+	gone      bool
 }
 
 type traceEv struct {
@@ -128,6 +130,12 @@ func (w *worker) sink(point string, args ...any) {
 		w.begins++
 	case "dbapi:end":
 		w.ends++
+		for _, h := range w.holds {
+			if !h.done && !h.gone && h.op == args[1].(string) {
+				h.gone = true
+				close(h.abandoned)
+			}
+		}
 	case "dbapi:panic":
 		w.panicking = true // never quiescent again: the process is about to die, the parent must see that
 		fmt.Fprintf(os.Stderr, "HANDLER-PANIC in %v: %v\n", args[0], args[2])
@@ -341,7 +349,7 @@ func (w *worker) seed(f []string) string {
 
 func (w *worker) privPut(key string, r record.Record) string {
 	w.touched[key] = true
-	delete(w.tainted, key)
+	delete(w.tainted, normKey(key))
 	n0 := w.nreplies()
 	if w.tracing {
 		w.mu.Lock()
@@ -411,7 +419,12 @@ func (w *worker) handleMsg(msg []byte) {
 	case "create", "update", "insert":
 		w.touched[c.Arg] = true
 	}
-	w.api.Handle(append([]byte(nil), msg...))
+	// the message is handed over as a window into a larger buffer whose spare capacity holds plausible
+	// bytes: anything appended to (or read beyond) a sub-slice of the message would show
+	buf := make([]byte, len(msg), len(msg)+32)
+	copy(buf, msg)
+	copy(buf[len(msg):cap(buf)], "|cancel|query hmap:|J{\"x\":1}|9|get|")
+	w.api.Handle(buf)
 }
 
 func (w *worker) msg(f []string) string {
@@ -441,9 +454,9 @@ func (w *worker) msg(f []string) string {
 	if okd {
 		switch c.Kind {
 		case "insert":
-			w.tainted[c.Arg] = true
+			w.tainted[normKey(c.Arg)] = true
 		case "create", "update":
-			delete(w.tainted, c.Arg)
+			delete(w.tainted, normKey(c.Arg))
 		}
 	}
 	return w.batch(n0)
@@ -533,7 +546,7 @@ func (w *worker) conc(arg string) string {
 			r, _ := record.NewWrapper(key, nil, uint8(st.F), unhx(st.D))
 			w.privPut(key, r)
 		case "hold":
-			h := &hold{point: st.Point, op: string(unhx(st.Op)), nth: st.N, reached: make(chan struct{}), release: make(chan struct{})}
+			h := &hold{point: st.Point, op: string(unhx(st.Op)), nth: st.N, reached: make(chan struct{}), release: make(chan struct{}), abandoned: make(chan struct{})}
 			holds[st.ID] = h
 			w.mu.Lock()
 			w.holds = append(w.holds, h)
@@ -542,8 +555,10 @@ func (w *worker) conc(arg string) string {
 			if h := holds[st.ID]; h != nil {
 				select {
 				case <-h.reached:
-				case <-time.After(300 * time.Millisecond):
-					res.Note += fmt.Sprintf("hold %d not reached;", st.ID)
+				case <-h.abandoned:
+					res.Note += fmt.Sprintf("hold %d not reached (handler returned);", st.ID)
+				case <-time.After(wedgeTimeout):
+					res.Note += fmt.Sprintf("hold %d not reached (timeout);", st.ID)
 				}
 			}
 		case "release":
